@@ -9,7 +9,7 @@ CHECKS["C16"] = dict(
     mode="asan",
     harness=["harness/C16_timers.cpp"],
     igris=["igris/container/dlist.cpp", "igris/sync/syslock_mutex.cpp", "igris/datastruct/stimer.c"],
-    runs=dict(quick=40000, thorough=1500000),
+    runs=dict(quick=40000, thorough=3000000),
     design_ref="DESIGN.md 4.2, 5 (C16)",
     technique="deterministic discrete-event simulation (seeded histories, stalls, re-entrant callbacks) checked against a reference scheduler",
     level_text="seeded exploration of timer histories under a simulated clock: every callback is validated against a "
@@ -36,7 +36,7 @@ CHECKS["C20"] = dict(
     harness=[("harness/C20_prog.cpp", ["+igris-san"]), "harness/C20_thr.cpp", "sim/thr/thrsim.cpp"],
     igris=["igris/sync/syslock_mutex.cpp", "igris/osinter/wait.cpp", "igris/osinter/wait-linux.cpp", "igris/container/dlist.cpp"],
     libs=["-rdynamic"],
-    runs=dict(quick=24000, thorough=1200000),
+    runs=dict(quick=24000, thorough=1500000),
     design_ref="DESIGN.md 4.1, 5 (C20), 11 A.3",
     technique="deterministic thread-schedule simulation: real threads serialised by a seeded scheduler at intercepted "
               "pthread/semaphore calls and instrumented memory accesses, spurious wake-up injection, vector-clock "
@@ -66,7 +66,7 @@ CHECKS["C04"] = dict(
     defs=["-DLINK_FAULTS=0", "-w"],
     harness=["harness/C04_C05_link.cpp"],
     igris=_LINK_IGRIS,
-    runs=dict(quick=60000, thorough=2500000),
+    runs=dict(quick=60000, thorough=3000000),
     design_ref="DESIGN.md 4.3, 5 (C04)",
     technique="deterministic simulation of sender -> byte channel -> receiver in the fault-free configuration, reference encoder/decoder oracle, ASan on exact-size buffers",
     level_text="seeded exploration of traffic (1-5 back-to-back frames, marker-heavy payloads, CRC steered onto markers, iovec partitions) through the "
@@ -87,7 +87,7 @@ CHECKS["C05"] = dict(
     defs=["-DLINK_FAULTS=1", "-w"],
     harness=["harness/C04_C05_link.cpp"],
     igris=_LINK_IGRIS,
-    runs=dict(quick=30000, thorough=1200000),
+    runs=dict(quick=30000, thorough=1500000),
     design_ref="DESIGN.md 4.3, 5 (C05), 11 A.2",
     technique="deterministic link simulation with fault injection (drop, truncate, flip, replace/insert marker bytes, duplicate, noise, CRC-completing bytes, "
               "receiver restart, undersized buffers); per-traffic enumeration of every single-fault offset; reference unescape/CRC oracle evaluated at every byte",
@@ -110,7 +110,7 @@ CHECKS["C03"] = dict(
     mode="asan",
     harness=["harness/C03_rings.cpp"],
     igris=[],
-    runs=dict(quick=60000, thorough=2000000),
+    runs=dict(quick=60000, thorough=3000000),
     design_ref="DESIGN.md 4.6, 5 (C03)",
     technique="deterministic simulation of producer/consumer/DMA tasks (with stalls) interleaved on one ring, refinement against a reference queue after every step, simulated memory (SimAlloc) + ASan",
     level_text="seeded histories of producer, consumer and DMA-style tasks over rings of every size 2..17 (67 thorough), all byte values with 0xFF/0x00 weighted; "
@@ -132,7 +132,7 @@ CHECKS["C10"] = dict(
     igris=["compat/mem/lin_malloc.cpp", "compat/mem/lin_realloc.cpp", "igris/sync/critical_context.c", "igris/sync/syslock_mutex.cpp"],
     post=[dict(match=r"^ig_lin_(malloc|realloc)_cpp\.o$",
                cmd=["objcopy", "--redefine-sym", "malloc=lin_malloc", "--redefine-sym", "free=lin_free", "--redefine-sym", "realloc=lin_realloc"])],
-    runs=dict(quick=40000, thorough=1500000),
+    runs=dict(quick=40000, thorough=3000000),
     design_ref="DESIGN.md 4.6, 5 (C10)",
     technique="deterministic simulation of several client tasks (allocate / free / reallocate / die) against the real allocators, shadow interval map of live blocks with byte patterns checked after every step, ASan",
     level_text="seeded histories of 2-4 clients over the bare-metal heap (malloc/free/realloc on a harness-provided arena) and the three fixed-block pools: every returned "
@@ -154,7 +154,7 @@ CHECKS["C01"] = dict(
     mode="asan",
     harness=["harness/C01_lists.cpp"],
     igris=["igris/container/dlist.cpp"],
-    runs=dict(quick=60000, thorough=2000000),
+    runs=dict(quick=60000, thorough=3000000),
     design_ref="DESIGN.md 4.6, 5 (C01)",
     technique="deterministic simulation of client tasks applying list operations (including node and list death) to the real intrusive lists, refinement against reference sequences after every step, every node its own heap object under ASan",
     level_text="seeded operation histories over 1-12 nodes and 1-4 lists per kind (C dlist, C++ dlist_node/dlist_base/dlist<>, C/C++ slist, hlist): after every step each list is "
@@ -173,8 +173,8 @@ CHECKS["C02"] = dict(
     engine="E6-hist",
     level="exploration",
     parts=[
-        dict(name="vector", mode="asan", harness=["harness/C02_vector.cpp"], igris=[], runs=dict(quick=40000, thorough=1500000)),
-        dict(name="twin", mode="asan", defs=["-DC02_TWIN"], harness=["harness/C02_vector.cpp"], igris=[], runs=dict(quick=20000, thorough=700000)),
+        dict(name="vector", mode="asan", harness=["harness/C02_vector.cpp"], igris=[], runs=dict(quick=40000, thorough=2000000)),
+        dict(name="twin", mode="asan", defs=["-DC02_TWIN"], harness=["harness/C02_vector.cpp"], igris=[], runs=dict(quick=20000, thorough=1000000)),
     ],
     design_ref="DESIGN.md 4.6, 5 (C02)",
     technique="deterministic simulation of operation histories over the Allocator/memory seam (SimAlloc: exact-size blocks, seed-chosen fill and immediate reuse), lifetime-tracking element type, step-by-step refinement against std::vector / std::map / std::set, ASan",
@@ -194,8 +194,8 @@ CHECKS["C14"] = dict(
     engine="E6-hist",
     level="exploration",
     parts=[
-        dict(name="static", mode="asan", harness=["harness/C14_static.cpp"], igris=[], runs=dict(quick=40000, thorough=1500000)),
-        dict(name="twin", mode="asan", defs=["-DC14_TWIN"], harness=["harness/C14_static.cpp"], igris=["igris/util/numconvert.c"], runs=dict(quick=20000, thorough=700000)),
+        dict(name="static", mode="asan", harness=["harness/C14_static.cpp"], igris=[], runs=dict(quick=40000, thorough=2000000)),
+        dict(name="twin", mode="asan", defs=["-DC14_TWIN"], harness=["harness/C14_static.cpp"], igris=["igris/util/numconvert.c"], runs=dict(quick=20000, thorough=1000000)),
     ],
     design_ref="DESIGN.md 4.6, 5 (C14)",
     technique="deterministic simulation of operation histories on container objects placed in simulated memory (exact-size SimAlloc blocks, seed-chosen fill), lifetime-tracking elements with storage-zone check, refinement against a reference truncated to N, ASan",
@@ -217,7 +217,7 @@ CHECKS["C15"] = dict(
     mode="asan",
     harness=["harness/C15_term.cpp", "harness/C15_term_c.cpp", "harness/C15_term_xx.cpp"],
     igris=["igris/shell/vterm.c", "igris/shell/vtermxx.cpp", "igris/util/numconvert.c"],
-    runs=dict(quick=30000, thorough=1200000),
+    runs=dict(quick=30000, thorough=3000000),
     design_ref="DESIGN.md 4.4, 5 (C15), 11 A.1",
     technique="deterministic simulation of a keyboard task feeding the real terminal automaton byte by byte (with line-noise and interrupt injection), echo stream replayed on a VT100 screen model, reference editor oracle after every key, ASan on exact-size buffers",
     level_text="seeded key histories (printables, BS, arrows, Delete, CR/LF in all pairings, Ctrl-C, unknown escapes; capacities 2..24, history depth 1..5, lines longer than the buffer, history wrap) "
@@ -240,7 +240,7 @@ CHECKS["C09"] = dict(
     defs=["-w"],
     harness=["harness/C09_store.cpp", "harness/C09_api1.cpp", "harness/C09_api2.cpp"],
     igris=[],
-    runs=dict(quick=12000, thorough=400000),
+    runs=dict(quick=12000, thorough=600000),
     design_ref="DESIGN.md 4.5, 5 (C09)",
     technique="deterministic simulation of a writer and a reader task over one cursor storage: concatenated streams of a compiled-in type family checked against an independent layout-rule encoder; "
               "storage-layer fault injection = truncation at every offset of each sampled stream, decoded from exact-size heap copies under ASan, twice over differently scribbled stacks; golden encodings",
